@@ -1226,6 +1226,66 @@ func runDecodeHints() {
 	chk.Sample("decode-hint", cases[1])
 }
 
+// runDesignatedWithHints (5b): an ECI designator fixes the interpretation of the bytes that follow it,
+// "whatever the decoder would otherwise have guessed" - and whatever CHARACTER_SET decode hint the
+// caller passes: a registered name of another set, a name the IANA index knows but x/text does
+// not implement, an unknown name, the empty string, nil, an encoding value.
+func runDesignatedWithHints() {
+	hintVals := []interface{}{"ISO-8859-1", "UTF-8", "Shift_JIS", "SJIS", "UTF-16BE", "GB18030", "UTF-7", "ISO-8859-11", "ISO-10646-UCS-2", "dummy", "", " ", nil, 5,
+		encoding.Encoding(charmap.ISO8859_1), encoding.Encoding(unicode.UTF16(unicode.BigEndian, unicode.ExpectBOM))}
+	type job struct {
+		d    *csDef
+		text string
+	}
+	var jobs []job
+	for _, d := range expectedSets {
+		var t []rune
+		t = append(t, 'a')
+		if hi := append(singles(d), doubles(d, false)...); len(hi) > 0 {
+			t = append(t, hi[len(hi)-1], hi[len(hi)/2], hi[len(hi)/3])
+		}
+		jobs = append(jobs, job{d, string(t)})
+	}
+	chk.Range(fmt.Sprintf("(5b) ECI-designated symbols under decode-side CHARACTER_SET hints: %d character sets (symbol written with the set's hint, text a + three code points of its upper half) x %d hint values (other registered names, IANA names without implementation, unknown and empty names, nil, non-string values, encoding values): the text read back is the text written", len(jobs), len(hintVals)), len(jobs),
+		func(i int) string { return jobs[i].d.key() },
+		func(l *mc.Local, i int) {
+			j := jobs[i]
+			var code *qrenc.QRCode
+			var err error
+			pm, _ := mc.Guard(func() { code, err = qrenc.Encoder_encode(j.text, qrdec.ErrorCorrectionLevel_L, encHints(j.d.names[0])) })
+			if pm != "" || err != nil || code == nil {
+				return // judged by the round-trip family
+			}
+			m := toBools(code.GetMatrix())
+			if _, _, _, data, e := qr.Read(m); e == nil {
+				if segs, e := qr.ParseSegments(data, code.GetVersion().GetVersionNumber()); e == nil {
+					designated := false
+					for _, sg := range segs {
+						designated = designated || sg.ECI >= 0
+					}
+					if !designated {
+						l.Count("designated_hint_cases_without_eci_segment", 1)
+						return
+					}
+				}
+			}
+			for _, hv := range hintVals {
+				r := libDecode(m, map[gozxing.DecodeHintType]interface{}{gozxing.DecodeHintType_CHARACTER_SET: hv})
+				l.Count("evaluations", 1)
+				rc := rtCase{Sub: "designated-hint", Name: j.d.names[0], TextHex: hx(j.text), Text: fmt.Sprintf("%+q", j.text), Class: fmt.Sprintf("hint=%T(%v)", hv, hv)}
+				if r.pm != "" {
+					chk.Violation("C15/panic/"+r.site+"/designated-hint", fmt.Sprintf("ECI-designated %s symbol read with CHARACTER_SET hint %T(%v) panics: %s", j.d.key(), hv, hv, r.pm), rc)
+					continue
+				}
+				if r.err != nil || r.text != j.text {
+					chk.Violation("C15/designated-hint/"+keyPart(j.d.key()), fmt.Sprintf("ECI-designated %s symbol of %+q read with CHARACTER_SET hint %T(%v): %+q err %v - the designator decides, not the hint", j.d.key(), j.text, hv, hv, r.text, r.err), rc)
+					break
+				}
+				l.Distinct("nontrivial", fmt.Sprint("dh-eci/", j.d.key(), hv))
+			}
+		})
+}
+
 func decodeHintOne(l *mc.Local, c hintCase) {
 	d := defByName[c.Name]
 	p, _ := hex.DecodeString(c.PayloadHex)
@@ -1422,6 +1482,7 @@ func main() {
 	runKanji()
 	runNoHint()
 	runDecodeHints()
+	runDesignatedWithHints()
 	runLegacyGuess()
 	chk.Finish()
 }
